@@ -33,10 +33,24 @@ RULE = (
     "frames (Hypothesis lists of the single-frame strategy + a permutation; deterministic batches of captured frames and of "
     "seeded frames whose opaque segments - first header, reserved 3 / 7a / 2a / 2b / 1, pad - are forced to differ: all-00, "
     "all-FF, seeded, documented defaults rotating) decoded through all four entry points, then observed and re-serialised in "
-    "another order and once more in the original order.  Distinct = hash of the 72 octets; non-trivial "
-    "= both ids >= 256 and colour code != 0."
+    "another order - where each frame is also decoded AGAIN (X, Y, X again) - and once more in the original order.  Near-twins "
+    "(round 7): a near-twin of a frame equals it in most fields; modes: counter (reserved_3 moved on: the same burst 256 frames "
+    "later), one opaque segment, pad (34th payload octet) only, all opaque segments, one DMR-level field (sequence, packet / "
+    "frame type, colour code, timeslot, one id) with the opaque octets kept, one DMR-level field + one opaque segment, one "
+    "vocoder / sync payload bit.  About 40 % of the Hypothesis frames, every 3rd cross-product frame, every 4th boundary frame "
+    "and every 2nd captured frame carry 1..3 near-twins that are decoded through all four entry points BEFORE the judged frame "
+    "and judged again after it; 'interleaved' batches (2..6 frames) contain 0..3 near-twins of their members (twins of twins "
+    "too) and deterministic batches of a seeded / captured frame + 1..3 twins in every mode with 0..2 unrelated frames between.  "
+    "Distinct = hash of the 72 octets; non-trivial = both ids >= 256 and colour code != 0."
 )
 ASSUMPTIONS = [
+    "near-twins / batches: decoding one well-formed frame must not change what the objects decoded from another frame carry or "
+    "serialise to, whichever decoder produced them and in whatever order; expected values of every object come from ITS 72 octets "
+    "(reference dissector).  Clause ids say which history produced a failure: '.._with_near_twins_decoded_first', '..near_twin..', "
+    "'..judged_frame_decoded_after_near_twins..' and 'interleaved' cases contain their history and replay on their own; a plain "
+    "re-encode / value clause failing on a case without twins is either independent of any history or caused by a frame an earlier "
+    "case of the same process decoded (such a stored case need not fail when replayed alone).  Hypothesis does not shrink "
+    "'interleaved' batches (shrinking replays candidates in the process the failure may have left dirty)",
     "provenance of the generic-parser object (kaitai API, not under test): IpSiteConnectProtocol.from_bytes(frame); the class "
     "constructed on a KaitaiStream that holds 14 / 42 / 72 / n other octets before the frame (positioned at the frame) and 0..80 "
     "octets behind it (the parser stores those as extra_data); close() called after parsing; copy.deepcopy of the parsed object; "
@@ -1106,6 +1120,6 @@ SUBCHECKS = [
     SubCheck("decode", _twin_bucket(oracle_decode), make_driver(12000, 400000), "raw-bytes and generic-parser decoders: values equal the encoded ones and both paths agree"),
     SubCheck("reencode_raw", oracle_reencode_raw, make_driver(5600, 200000), "as_ipsc_bytes of the frame decoded from raw bytes reproduces the 72 octets"),
     SubCheck("reencode_generic", oracle_reencode_generic, make_driver(5600, 200000), "as_ipsc_bytes of the frame decoded through the generic parser reproduces the 72 octets"),
-    SubCheck("interleaved", oracle_interleaved, drv_interleaved, "batches of 2..4 different frames: decode all through every entry point, then re-serialise / re-observe in another order; each object keeps its own frame"),
+    SubCheck("interleaved", oracle_interleaved, drv_interleaved, "batches of 2..6 frames incl. near-twins: decode all through every entry point, then re-serialise / re-observe / decode again in another order; each object keeps its own frame"),
 ]
 PREDICATES = {}
